@@ -408,6 +408,8 @@ func (b *Binder) TypeReference(schemaType *ast.Type, bindTarget types.Type) (ret
 				GQL:        schemaType,
 				GO:         MapType,
 				IsRoot:     b.cfg.IsRoot(def),
+
+				PointersInUnmarshalInput: b.cfg.ReturnPointersInUnmarshalInput,
 			}, nil
 		}
 
